@@ -108,3 +108,38 @@ def branch_facts(cfg: CFG, gen=None) -> dict[int, frozenset[str]]:
                 state[s.id] = new
                 work.append(s)
     return {k: (v if v is not None else frozenset()) for k, v in state.items()}
+
+
+def feasible_edges(cfg: CFG, target: Node, facts: dict[int, frozenset[str]]):
+    """
+    edge_ok predicate for path searches towards `target`: an edge out of a test node is
+    infeasible if it establishes the negation of a fact that holds at `target` and no name
+    of that fact is written anywhere except before the test (single dominating write).
+    """
+    tf = facts.get(target.id, frozenset())
+    writes: dict[str, list[Node]] = {}
+    for n in cfg.nodes:
+        for w, _ in node_writes(n):
+            writes.setdefault(w, []).append(n)
+
+    def neg(f: str) -> str:
+        return ('-' if f[0] == '+' else '+') + f[1:]
+
+    def edge_ok(n: Node, label: str) -> bool:
+        if n.kind != 'test' or label not in ('true', 'false'):
+            return True
+        for ef in cond_facts(n.ast, label == 'true'):       # type: ignore[arg-type]
+            if neg(ef) in tf:
+                names = _names_in_fact(ef)
+                stable = True
+                for nm in names:
+                    for wname, nodes in writes.items():
+                        w0 = wname[:-2] if wname.endswith('[]') else wname
+                        if nm == w0 or nm.startswith(w0 + '.'):
+                            for wn in nodes:
+                                if wn is n or not cfg.dominated_by(n, lambda q, wn=wn: q is wn):
+                                    stable = False
+                if stable:
+                    return False
+        return True
+    return edge_ok
